@@ -10,6 +10,10 @@ does not cascade into the reader lines).
   `ints [v…]`             => `hex k [v'…]`            …DeltaCodedInts (ints as 64-bit words)   pred: v' = v
   `deltad n hex`          => `k [v…]` | `panic`       decode of arbitrary bytes (model only)
   `fix v l`               => `hex v'` | `panic`       Marshal/UnmarshalUint64                  pred (l ≥ Uint64Length v, l ≥ 1): v' = v
+  `fixown v`              => `l hex v'`               the same at the value's own length l = Uint64Length(v), as the
+                                                      ByteArrays pointer table does it        pred: v' = v
+  `bal [len…]`            => `hex end blen rlen n [off…]`  layout only: reserve, WriteHeader, read the pointer table back
+                                                      pred: offsets = running sums, lengths agree
   `len v`                 => `n`                      Uint64Length
   `ba n | i:len … | i:hex+hex …` => `hex end blen rlen [item…]` | `panic`
                                                       pred (every item filled exactly): item i = concatenation of its writes
@@ -241,6 +245,40 @@ def step (st : St) (op impl : String) : St × Verdict :=
         (st, judge impl m s!"{renderHex bytes} {v.toNat}" "fixed_width_roundtrip")
       else (st, judgeM impl m)
     | _, _ => (st, .bad)
+  | ["fixown", vs] =>
+    match u64? vs with
+    | some v =>
+      let l := uint64Length v.toNat
+      let bytes := marshalUint64 v.toNat l
+      let m := match unmarshalUint64 l bytes with
+        | some back => s!"{l} {renderHex bytes} {back}"
+        | none => "panic"
+      -- predicate: whatever width the implementation chose, the value must come back
+      match words impl with
+      | [_, _, back] => (st, if back == toString v.toNat then judgeM impl m else .propfail "fixed_width_roundtrip_at_own_length")
+      | _ => (st, .propfail "fixed_width_roundtrip_at_own_length")
+    | none => (st, .bad)
+  | "bal" :: _ =>
+    match parseWords (rest op) with
+    | none => (st, .bad)
+    | some ls =>
+      let res := ls.map (·.toNat)
+      let hdr := baHeader res
+      let ob := uint64Length (total res)
+      let offs := (List.range (res.length + 1)).map fun i =>
+        match (goFrom hdr (baLayoutLength + ob * i)).bind (unmarshalUint64 ob) with
+        | some o => toString o | none => "panic"
+      let endOff := baDataOffset res + total res
+      let rlen := match baLength hdr with | some l => toString l | none => "panic"
+      let m := s!"{renderHex hdr} {endOff} {endOff} {rlen} {res.length} {renderList offs}"
+      -- spec: the offsets read back are the running sums, and the length read back is the length written
+      let specOffs := renderList ((List.range (res.length + 1)).map fun i => toString (res.take i).sum)
+      let okSpec := match impl.splitOn " [" , words impl with
+        | [_, o], [_, e, bl, rl, n, _] => "[" ++ o == specOffs && e == toString endOff && bl == e && rl == e && n == toString res.length
+        | [_, o], ws => "[" ++ o == specOffs && ws.getD 1 "" == toString endOff && ws.getD 2 "" == ws.getD 1 "" &&
+            ws.getD 3 "" == ws.getD 1 "" && ws.getD 4 "" == toString res.length
+        | _, _ => false
+      (st, if okSpec then judgeM impl m else .propfail "bytearrays_layout")
   | ["len", vs] =>
     match u64? vs with
     | some v => (st, judgeM impl (toString (uint64Length v.toNat)))
